@@ -72,7 +72,9 @@ KvDeleteTreeTxn(st, idx, p) ==
   LET hit == {e \in st.kv : IsPrefix(p, e.k)} IN
   IF hit = {} THEN st
   ELSE LET s1 == [st EXCEPT !.kv = @ \ hit]
-           s2 == IF p # <<>> THEN TixSet(TombPut(s1, p, idx), "tombstones", idx) ELSE s1
+           \* deleting the whole tree leaves no tombstone; the graveyard is emptied instead so that
+           \* every prefix listing falls back to the table index (which this delete advances)
+           s2 == IF p # <<>> THEN TixSet(TombPut(s1, p, idx), "tombstones", idx) ELSE [s1 EXCEPT !.tombs = {}]
        IN TixSet(s2, "kvs", idx)
 
 SessHas(st, id) == \E s \in st.sess : s.id = id
@@ -120,7 +122,10 @@ KVList(st, p) == SetToSortSeq({x \in st.kv : IsPrefix(p, x.k)}, LAMBDA a, b : Ke
 \* kvsListTxn index rule
 KVTableIdx(st) == IF Tix(st, "kvs") > Tix(st, "tombstones") THEN Tix(st, "kvs") ELSE Tix(st, "tombstones")
 KVListIdx(st, p) ==
-  LET l == MaxOf({x.mi : x \in {x \in st.kv : IsPrefix(p, x.k)}} \cup {t.i : t \in {t \in st.tombs : IsPrefix(p, t.k)}})
+  \* tombstones under the prefix, and tombstones of ANCESTORS of the prefix (a recursive delete of "a"
+  \* leaves its tombstone at "a" and covers a later listing of "a/b")
+  LET l == MaxOf({x.mi : x \in {x \in st.kv : IsPrefix(p, x.k)}}
+                 \cup {t.i : t \in {t \in st.tombs : IsPrefix(p, t.k) \/ IsPrefix(t.k, p)}})
       sub == IF p = <<>> THEN KVTableIdx(st) ELSE l
   IN IF sub # 0 THEN sub ELSE KVTableIdx(st)
 
